@@ -219,19 +219,22 @@ def check(rep, tier, seed):
         rep.add(Query("locate the per-request closure", "inconclusive", "no closure of handle_new_tcp_connection calls handle_new_http_request", 0, "mirsym"))
     # the captured context is the one returned by TcpConnectionContext::new for this accept
     spawn = [p for p in ctx.idx.files if p.startswith(base + "::") and "TcpConnectionContext::new" in open(ctx.idx.files[p], errors="replace").read()]
-    okc = False
+    okc, not_captured = False, []
     for p in spawn:
         e4 = ctx.engine()
-        for r in e4.explore(p):
+        for i4, r in enumerate(e4.explore(p)):
             nw = [e for e in r.events if e.kind == "await" and e.callee.endswith("TcpConnectionContext::new")]
             cls = [e for e in r.events if e.kind == "call" and e.callee.endswith("service_fn")]
             for c in cls:
                 cl = c.rargs[0]
                 if isinstance(cl, Agg) and nw and any(same_origin(x, nw[0].ret) for x in cl.fields):
                     okc = True
+                else:
+                    # on EVERY path: a context from anywhere else (a cache of earlier connections, a default) is another connection's identity
+                    not_captured.append("path %d: captured %s" % (i4, [repr(origin(x))[:60] for x in (cl.fields if isinstance(cl, Agg) else [])][:6]))
         rep.functions_encoded.append(p)
-    rep.add(Query("accept task: the service closure captures the context returned by TcpConnectionContext::new of this accept", "holds" if okc else "violated", "", 0, "mirsym",
-                  key="C07.capture", reproduced=None))
+    rep.add(Query("accept task: on every path the service closure captures the context returned by TcpConnectionContext::new of this accept", "holds" if okc and not not_captured else "violated",
+                  "; ".join(not_captured)[:400], 0, "mirsym", key="C07.capture", reproduced=None))
     # every accepted connection reaches TcpConnectionContext::new (which consumes the record): the accept path may give up earlier only when an
     # operation of the agent itself fails, never on something the peer controls (its address being unavailable after a reset, its data ...)
     PEER = re.compile(r"(peer_addr|local_addr|TcpStream::(peek|read|try_read|readable|ready|take_error|poll_peek)|::peek$|take_error)$")
